@@ -7,6 +7,8 @@ R19.1 every index / sub-slice of the line-start table (`NewlineCache::newlines`,
       slice::binary_search (Ok(j): j < len, Err(j): j <= len, over exactly the sub-slice searched), usize >= 0, and two
       table invariants (T1 the table is never empty, T2 its first entry is 0 so a search over the WHOLE table never
       answers Err(0)).
+R19.3 the character loop of byte_to_line_num_and_col_num, read as a finite transducer over {CR, LF, other}, counts every character
+      except an LF that immediately follows a CR (finite-model comparison; LF only as the last character of a line)
 R19.2 the premises of T1/T2: `NewlineCache::new` builds the table as the one-element array [0]; every other function that
       obtains `&mut newlines` only hands it to `extend`/`push` (nothing removes, truncates, clears or overwrites).
 """
@@ -20,8 +22,8 @@ META = {
                    'NewlineCache::newlines is proved in range on every path by a small linear-integer argument (path comparisons '
                    '+ binary_search postconditions + two structurally checked table invariants). A necessary condition of "the '
                    'lines-of-span query never panics, including spans that end at a line start or at the end of the text". NOT '
-                   'decided: that the line/column numbers and the returned byte ranges are the right ones, str slicing by the '
-                   'returned offsets in the lexer/diagnostics, CR LF column counting.',
+                   'decided: that the line numbers and the returned byte ranges are the right ones, str slicing by the '
+                   'returned offsets in the lexer/diagnostics. The CR LF clause of column counting IS decided (R19.3, transducer comparison).',
 }
 
 MOD = 'cfgrammar::newlinecache::'
@@ -208,6 +210,180 @@ def r192(facts, res):
     res.floor(R, 'mutators of the line-start table', nm, 1)
 
 
+def r193(facts, res):
+    """Column counting as a finite transducer.  The loop of byte_to_line_num_and_col_num that walks the characters of the line is
+    read as a machine: state = its loop-carried non-counter locals, input = the class of the character (CR, LF, other), output =
+    whether the column counter is incremented.  It must be bisimilar to the specification `increment on every character except
+    an LF that immediately follows a CR` on all inputs in which LF (the line terminator) can only be the last character."""
+    R = 'R19.3'
+    bs = [b for b in facts.lib_bodies(['cfgrammar']) if b.path.startswith(MOD + 'NewlineCache::byte_to_line_num_and_col_num') and b.kind == 'closure']
+    bs = [b for b in bs if b.loops()]
+    if len(bs) != 1:
+        res.lost(R, 'the character loop of byte_to_line_num_and_col_num was not found (%d candidate closures with a loop)' % len(bs))
+        return
+    b = bs[0]
+    loops = b.loops()
+    h = max(loops, key=lambda x: len(loops[x]))
+    carried = loop_assigned(b, h)
+    w = Walker(b, facts, max_paths=2048)
+    ps = [p for p in w.run(h, stop=lambda x: x not in loops[h]) if p.end[0] in ('loop', 'stop', 'return')]
+    if w.overflow or not ps:
+        res.lost(R, 'cannot enumerate the character loop')
+        return
+    # genuinely loop-carried named locals: their value at the loop header is READ on some path
+    def read_at_header(l):
+        for p in ps:
+            for c, v in p.conds:
+                if term_has(c, lambda x: x == ('uninit', l)):
+                    return True
+            for k, t in p.env.items():
+                if isinstance(t, tuple) and term_has(t, lambda x: x == ('uninit', l)) and t != ('uninit', l):
+                    return True
+        return False
+    named = [l for l in carried if b.name_of(l) and read_at_header(l)]
+    counters = [l for l in named if b.lty(l) in ('usize', 'u64', 'u32')]
+    states = [l for l in named if l not in counters and (b.lty(l) in ('bool', 'char', 'u8') or b.lty(l).startswith(('core::option::Option<char', 'core::option::Option<bool', 'core::option::Option<u8')))]
+    if len(counters) != 1:
+        res.lost(R, 'expected one column counter in the character loop, found %s' % [b.name_of(l) for l in counters])
+        return
+    col = counters[0]
+
+    class Unk(Exception):
+        pass
+
+    def is_char(t):
+        # the char component of the (offset, char) pair the iterator yields
+        t2 = t
+        while isinstance(t2, tuple) and t2 and t2[0] in ('ref', 'deref'):
+            t2 = t2[1]
+        return isinstance(t2, tuple) and len(t2) > 2 and t2[0] == 'field' and t2[2] == 1 and item_payload(t2[1])
+
+    def item_payload(t):
+        while isinstance(t, tuple) and t and t[0] in ('ref', 'deref'):
+            t = t[1]
+        return isinstance(t, tuple) and len(t) > 3 and t[0] == 'field' and isinstance(t[1], tuple) and t[1] and t[1][0] == 'downcast' \
+            and isinstance(t[1][1], tuple) and t[1][1] and t[1][1][0] == 'call' and strip_generics(t[1][1][1]).split('::')[-1] == 'next'
+
+    def ev(t, st, ch):
+        while isinstance(t, tuple) and t and t[0] in ('ref', 'deref'):
+            t = t[1]
+        if not isinstance(t, tuple) or not t:
+            raise Unk()
+        if t[0] == 'const':
+            return t[1]
+        if t[0] == 'uninit' and t[1] in st:
+            return st[t[1]]
+        if is_char(t):
+            return ch
+        if t[0] == 'variant':
+            return (t[3],) + tuple(ev(x, st, ch) for x in t[4])
+        if t[0] == 'bin' and t[1] in ('Eq', 'Ne'):
+            a, d = ev(t[2], st, ch), ev(t[3], st, ch)
+            return int((a == d) == (t[1] == 'Eq'))
+        if t[0] == 'bin' and t[1] in ('BitAnd', 'BitOr'):
+            a, d = ev(t[2], st, ch), ev(t[3], st, ch)
+            return int(bool(a) and bool(d)) if t[1] == 'BitAnd' else int(bool(a) or bool(d))
+        if t[0] == 'not':
+            return int(not ev(t[1], st, ch))
+        raise Unk()
+
+    # initial state: constants assigned to the state locals in blocks dominating the loop header
+    init = {}
+    for l in states:
+        vals = []
+        for bb, kind, rv in b.defs().get(l, []):
+            if bb in loops[h] or not b.dominates(bb, h) or kind != 'stmt':
+                continue
+            if 'use' in rv and 'const' in rv['use']:
+                vals.append(rv['use']['const'].get('int'))
+            elif isinstance(rv.get('agg'), dict):
+                vals.append((rv['agg'].get('vname'),) + tuple(o.get('const', {}).get('int') for o in rv['ops']))
+        if len(vals) != 1:
+            res.lost(R, 'cannot read the initial value of the loop state `%s`' % b.name_of(l))
+            return
+        init[l] = vals[0]
+
+    CR, LF, OTHER = 13, 10, 120
+    def step(st, ch):
+        """-> (set of (new state tuple, increment)) over all loop paths consistent with (st, ch)"""
+        outs = set()
+        for p in ps:
+            sat = True
+            for c, v in p.conds:
+                if c[0] == 'discr' and isinstance(c[1], tuple) and c[1] and c[1][0] == 'call' and strip_generics(c[1][1]).split('::')[-1] == 'next':
+                    if v == 0:
+                        sat = False     # the iterator is exhausted: no character is processed on this path
+                        break
+                    continue
+                try:
+                    x = ev(c, st, ch)
+                except Unk:
+                    continue
+                if isinstance(v, int) and x != v:
+                    sat = False
+                    break
+                if isinstance(v, tuple) and v and v[0] == 'ne' and x in v[1]:
+                    sat = False
+                    break
+            if not sat:
+                continue
+            fin = p.env.get((col, ()), ('uninit', col))
+            inc = None
+            if fin == ('uninit', col):
+                inc = 0
+            elif fin[0] == 'bin' and fin[1] == 'Add' and ((fin[2] == ('uninit', col) and fin[3] == ('const', 1)) or (fin[3] == ('uninit', col) and fin[2] == ('const', 1))):
+                inc = 1
+            else:
+                raise Unk()
+            ns = {}
+            for l in states:
+                t = p.env.get((l, ()), ('uninit', l))
+                ns[l] = ev(t, st, ch)
+            outs.add((tuple(sorted(ns.items())), inc))
+        return outs
+
+    bad = []
+    seen = set()
+    todo = [(tuple(sorted(init.items())), False)]
+    npairs = 0
+    try:
+        while todo:
+            cst, prev_cr = todo.pop()
+            if (cst, prev_cr) in seen:
+                continue
+            seen.add((cst, prev_cr))
+            st = dict(cst)
+            for ch, cname_ in ((CR, 'CR'), (LF, 'LF'), (OTHER, 'another character')):
+                outs = step(st, ch)
+                npairs += 1
+                if not outs:
+                    bad.append('no path of the loop handles %s in state %s' % (cname_, {b.name_of(k): v for k, v in st.items()}))
+                    continue
+                want = 0 if (prev_cr and ch == LF) else 1
+                incs = {i for _s, i in outs}
+                if incs != {want}:
+                    bad.append('%s %s: the column counter is advanced by %s, the specification says %d' % (
+                        cname_, 'right after a CR' if prev_cr else 'not preceded by a CR', sorted(incs), want))
+                if ch != LF:
+                    nss = {s_ for s_, _i in outs}
+                    if len(nss) != 1:
+                        bad.append('the loop state after %s is not determined' % cname_)
+                    for s_ in nss:
+                        todo.append((s_, ch == CR))
+            if len(seen) > 64:
+                bad.append('state space of the loop does not close')
+                break
+    except Unk:
+        res.lost(R, 'the character loop uses a construct the transducer reading does not understand')
+        return
+    if bad:
+        res.bad(R, 'column-transducer', loc_of(b, h), '; '.join(sorted(set(bad))[:3]), {'function': b.path})
+    else:
+        res.ok(R, 'column-transducer', loc_of(b, h), 'bisimilar to "count every character except an LF right after a CR": %d (state, previous-was-CR) pairs x 3 character classes over %d loop paths'
+               % (len(seen), len(ps)))
+
+
 def run(facts, res):
     r191(facts, res)
     r192(facts, res)
+    r193(facts, res)
